@@ -361,6 +361,19 @@ pub fn seq_strategy() -> impl Strategy<Value = SeqCase> {
         1 => long_atom,
         2 => (0i64..100).prop_map(|i| Value::int(i as i128)),
         1 => prop::sample::select(vec!["n@h", "x@y", "a"]).prop_map(|n| Value::Pid { node: n.to_string(), id: 1, serial: 2, creation: 3 }),
+        // every other place an atom can sit: port / reference node names, module and function names of funs
+        1 => (prop::sample::select(vec!["n@h", "x@y", "b"]), any::<bool>()).prop_map(|(n, port)| if port { Value::Port { node: n.to_string(), id: 9, creation: 1 } } else { Value::Ref { node: n.to_string(), creation: 2, ids: vec![1, 2] } }),
+        1 => (prop::sample::select(vec!["m", "f", "rex", "ok"]), prop::sample::select(vec!["f", "m", "error", "c"])).prop_map(|(m, f)| Value::ExportFun { module: m.to_string(), function: f.to_string(), arity: 2 }),
+        1 => (prop::sample::select(vec!["m", "f", "a", "true"]), prop::sample::select(vec!["n@h", "x@y"]), prop::sample::select(vec!["b", "c", "undefined"])).prop_map(|(m, n, fv)| Value::Fun {
+            arity: 1,
+            uniq: [3; 16],
+            index: 1,
+            module: m.to_string(),
+            old_index: 2,
+            old_uniq: 3,
+            pid: Box::new(Value::Pid { node: n.to_string(), id: 4, serial: 5, creation: 6 }),
+            free: vec![Value::atom(fv)],
+        }),
     ];
     let term = prop::collection::vec(leaf, 1..6).prop_map(Value::Tuple);
     let msg = (term.clone(), prop::option::weighted(0.6, term));
